@@ -40,6 +40,20 @@ def scope_gate(prog):
         if passes:
             hits[g.qual] = g
     if len(hits) != 1:
+        # the method that builds the InvalidScope error (and hands it back
+        # for its caller to raise)
+        makers = {}
+        for q, g in region.items():
+            if g is enf or g.cls is None or \
+                    g.cls.qual != POLICY + '.Enforcer':
+                continue
+            if any(isinstance(n, ast.Call) and prog.resolve(
+                    g.module, n.func) == POLICY + '.InvalidScope'
+                    for n in ast.walk(g.node)):
+                makers[g.qual] = g
+        if len(makers) == 1:
+            return list(makers.values())[0]
+    if len(hits) != 1:
         raise AnalysisError('expected one scope gate (the method raising '
                             'InvalidScope, or the one enforce calls with '
                             'do_raise), found %s' % sorted(
